@@ -110,6 +110,11 @@ fn main() {
                 args.max_seconds = Some(need(i).parse().unwrap_or_else(|_| usage()));
                 i += 1;
             }
+            "--shape" => {
+                // force one scenario shape of the property's generator (C17: "threads")
+                props::force_shape(need(i));
+                i += 1;
+            }
             "--no-evidence" => args.write_evidence = false,
             "--no-extras" => args.no_extras = true,
             "--log-hashes" => args.log_hashes = true,
